@@ -3,6 +3,7 @@ package gabi
 import (
 	"crypto/sha256"
 	"crypto/subtle"
+	"slices"
 
 	"github.com/fxamacker/cbor"
 	"github.com/go-errors/errors"
@@ -158,9 +159,15 @@ func KeyshareResponse[T comparable](
 	keys map[T]*gabikeys.PublicKey,
 ) (*ProofP, error) {
 	// Sanity checks
+	if secret == nil || randomizer == nil || responseRequest.Nonce == nil || responseRequest.UserResponse == nil {
+		return nil, errors.New("incomplete keyshare response request")
+	}
 	for i, k := range responseRequest.UserChallengeInput {
 		if k.KeyID != nil && keys[*k.KeyID] == nil {
 			return nil, errors.Errorf("missing public key for element %d of challenge input", i)
+		}
+		if k.Value == nil || k.Commitment == nil || slices.Contains(k.OtherCommitments, nil) {
+			return nil, errors.Errorf("incomplete element %d of challenge input", i)
 		}
 	}
 	if responseRequest.Context == nil {
